@@ -196,7 +196,8 @@ class Recfile(object):
 
         # expand shortcut variables
         filename = os.path.expanduser(filename)
-        self.filename = os.path.expandvars(filename)
+        filename = os.path.expandvars(filename)
+        self.filename = filename
 
         if self.mode not in ["r", "r+", "w", "w+"]:
             raise ValueError("bad mode: '%s'" % self.mode)
